@@ -1,11 +1,10 @@
 """Density family: the constants the Lean model takes from the CURRENT headers.
 
 * density_MIN_K        smallest k accepted by check_k (`if (k < 2) throw`) -- model parameter; the theorems need 1 <= MIN_K
-* density_WEIGHT_BASE  base of the level weight reported by the iterator and used by get_estimate (`1ULL << height_`, `1 << height`)
 * wire constants (preamble sizes, family id, serial version): used only to read the level sizes out of a serialized image in the harness
   (pinned by C10, not by this property)
-The three statement shapes the model transcribes (loop guards of update/merge, is_empty, the dimension checks) are also matched here, so an edit
-that changes their shape is a translation failure (= broken tie), never silently ignored.
+Everything else the model transcribes (loop guard, level selection, is_empty, dimension checks) is algorithmic and is tied by the
+correspondence check, not here: a behaviour-preserving restructuring of those statements must stay silent.
 """
 import re
 
@@ -26,16 +25,4 @@ def generate(repo, T):
         T.fail("density: cannot find `if (k < N)` in check_k")
     else:
         extra.append("def density_MIN_K : Nat := %d" % int(m.group(1)))
-    sh = re.findall(r"\b1(?:ULL)?\s*<<\s*height_?\b", impl)
-    if len(sh) != 2:
-        T.fail("density: expected exactly two `1 << height` weight expressions (iterator, get_estimate), found %d" % len(sh))
-    else:
-        extra.append("def density_WEIGHT_BASE : Nat := 2")
-    guards = re.findall(r"while\s*\(\s*num_retained_\s*>=\s*k_\s*\*\s*levels_\.size\(\)\s*\)\s*compact\(\)\s*;", impl)
-    if len(guards) != 2:
-        T.fail("density: expected the guard `while (num_retained_ >= k_ * levels_.size()) compact();` in update and merge, found %d" % len(guards))
-    if not re.search(r"is_empty\(\)\s*const\s*\{\s*return\s+num_retained_\s*==\s*0\s*;", impl):
-        T.fail("density: is_empty() is no longer `num_retained_ == 0`")
-    if not re.search(r"if\s*\(\s*levels_\[height\]\.size\(\)\s*>=\s*k_\s*\)", impl):
-        T.fail("density: compact() no longer selects the first level with size >= k_")
     return {"Density.lean": base.replace("\nend DSGen", "\n".join(extra) + "\n\nend DSGen")}
